@@ -342,18 +342,15 @@ def _chain_cases(tier):
         out += [dict(mode="compose", layout=[4], K=2, upper=True, k1=2, k2=2), dict(mode="compose", layout=[4, 1], K=1, upper=False, k1=2, k2=2),
                 dict(mode="compose", layout=[6], K=1, upper=True, k1=2, k2=3)]
         out += [dict(mode="commute", layout=[3], K=1, upper=True, k1=2), dict(mode="commute", layout=[2, 2], K=1, upper=True, k1=2),
-                dict(mode="commute", layout=[4], K=1, upper=False, k1=3)]
+                dict(mode="commute", layout=[3], K=1, upper=False, k1=2)]
     else:
-        for lay in ([4], [5, 2], [6]):
-            for k1, k2 in ((2, 2), (2, 3)):
-                for upper in (True, False):
-                    out.append(dict(mode="compose", layout=lay, K=2, upper=upper, k1=k1, k2=k2))
-        out.append(dict(mode="compose", layout=[6], K=2, upper=True, k1=3, k2=2))
+        out += [dict(mode="compose", layout=[4], K=2, upper=u, k1=2, k2=2) for u in (True, False)]
+        out += [dict(mode="compose", layout=[6], K=2, upper=True, k1=k1, k2=k2) for k1, k2 in ((2, 3), (3, 2))]
+        out += [dict(mode="compose", layout=[5, 2], K=2, upper=False, k1=2, k2=2), dict(mode="compose", layout=[4, 1], K=1, upper=False, k1=2, k2=2)]
         for lay in ([3], [2, 2], [4]):
             for k in (2, 3):
-                for upper in (True, False):
-                    out.append(dict(mode="commute", layout=lay, K=1, upper=upper, k1=k))
-        out.append(dict(mode="commute", layout=[2, 2], K=2, upper=True, k1=2))
+                out.append(dict(mode="commute", layout=lay, K=1, upper=True, k1=k))
+        out.append(dict(mode="commute", layout=[4], K=1, upper=False, k1=3))
     return out
 
 
@@ -361,7 +358,7 @@ CHECKS.append(Check("chain", _chain_cases, chain_sym, chain_real,
                     doc="the composition and merge-commutation clauses executed end to end on symbolic collections: coarsen(k1) then coarsen(k2) "
                         "is the same collection as coarsen(k1*k2) on fixed-width bins; coarsen(merge(A,B)) is the same collection as "
                         "merge(coarsen(A), coarsen(B)); chunk size and merge buffer solver-chosen",
-                    bounds=dict(quick="n<=6 bins, <=2 chromosomes, K<=2 pixels, (k1,k2) in {(2,2),(2,3)}; commutation: merge of 2 inputs of 1 pixel, n<=4, factor 2..3",
-                                thorough="n<=7 bins, <=2 chromosomes, K<=2 (compose), (k1,k2) in {(2,2),(2,3),(3,2)}; commutation K<=2 per input"),
+                    bounds=dict(quick="n<=6 bins, <=2 chromosomes, K<=2 pixels, (k1,k2) in {(2,2),(2,3)}; commutation: merge of 2 inputs of 1 pixel, n<=4, factor 2",
+                                thorough="n<=7 bins, <=2 chromosomes, K<=2 (compose), (k1,k2) in {(2,2),(2,3),(3,2)}; commutation: 1 pixel per input, n<=4"),
                     stubs=("E3 in-memory h5py model", "E4 pandas models", "E7 ordered map"),
                     outside=("variable-width bins for composition (the property states it for fixed-width bins)",), timeout=3000, split_depth=8))
